@@ -947,3 +947,19 @@ M("c03-state-anode-node-without-state", ["C03"], "break",
   [("yaep.c", "		      curr_state = ((struct parse_state **)\n				    VLO_BEGIN (orig_states))[j];\n		      anode = curr_state->anode;", "		      anode = ((struct parse_state **)\n			       VLO_BEGIN (orig_states))[j]->anode;")], "C03-state-anode")
 M("c03-state-anode-two-reads-benign", ["C03"], "benign",
   [("yaep.c", "		      curr_state = ((struct parse_state **)\n				    VLO_BEGIN (orig_states))[j];\n		      anode = curr_state->anode;", "		      anode = ((struct parse_state **)\n			       VLO_BEGIN (orig_states))[j]->anode;\n		      curr_state = ((struct parse_state **)\n				    VLO_BEGIN (orig_states))[j];")])
+M("r22-accumulate-context-copied", ["C01", "C09"], "break",
+  [("yaep.c", "	term_set_or (sit->lookahead, term_set_from_table (sit->context));\n      return TRUE;", "	term_set_copy (sit->lookahead, term_set_from_table (sit->context));\n      return TRUE;")], "R22-accumulate")
+M("r22-accumulate-follow-local-benign", ["C01", "C09"], "benign",
+  [("yaep.c", "	term_set_or (sit->lookahead, term_set_from_table (sit->context));\n      return TRUE;", "	{\n	  term_set_el_t *context_set = term_set_from_table (sit->context);\n\n	  term_set_or (sit->lookahead, context_set);\n	}\n      return TRUE;")])
+M("r16-hop-tests-new-frontier", ["C07", "C06"], "break",
+  [("yaep.c", "	  if (pl[back_pl_frontier]->core->term != grammar->term_error)\n	    backward_move_cost++;", "	  if (pl[pl_curr]->core->term != grammar->term_error)\n	    backward_move_cost++;")], "R16-hop")
+M("r16-hop-old-frontier-local-benign", ["C07", "C06"], "benign",
+  [("yaep.c", "	  if (pl[back_pl_frontier]->core->term != grammar->term_error)\n	    backward_move_cost++;", "	  {\n	    struct set *old_frontier_set = pl[back_pl_frontier];\n\n	    if (old_frontier_set->core->term != grammar->term_error)\n	      backward_move_cost += 1;\n	  }")])
+M("r27-hash-mult-power-of-two", ["C18"], "break",
+  [("yaep.c", "static const unsigned hash_shift = 611;", "static const unsigned hash_shift = 1 << 10;")], "R27-hash-mult")
+M("r27-hash-mult-other-odd-benign", ["C18"], "benign",
+  [("yaep.c", "static const unsigned hash_shift = 611;", "static const unsigned hash_shift = 613;")])
+M("c11-lists-right-recursive-alternatives", ["C11"], "break",
+  [("sgramm.y", "rhs : rhs '|' alt\n    | alt\n    ;", "rhs : alt\n    | alt '|' rhs\n    ;")], "C11-lists")
+M("c11-lists-alternatives-reordered-benign", ["C11"], "benign",
+  [("sgramm.y", "rhs : rhs '|' alt\n    | alt\n    ;", "rhs : alt\n    | rhs '|' alt\n    ;")])
